@@ -61,6 +61,7 @@ func c20Sample(p *Prog, l *Ledger) {
 	}
 	// roles of the listener fields from the metric-name constant used at registration
 	roles := map[int]string{} // field index -> "rtt" | "dropped" | "inflight"
+	neverNil := map[int]bool{}  // field index -> the constructor stores a listener proved non-nil
 	al := p.allocOf(ctor, cms)
 	st := cms.Underlying().(*types.Struct)
 	for i := 0; i < st.NumFields(); i++ {
@@ -70,6 +71,15 @@ func c20Sample(p *Prog, l *Ledger) {
 				continue
 			}
 			c := p.CallOf(call)
+			// a wrapper that passes the registered listener through, or replaces a nil one by a no-op listener
+			if c.Static != nil && len(c.Args) == 1 && c20NonNilPassThrough(p, c.Static) {
+				neverNil[i] = true
+				inner, ok := strip(c.Args[0], false).(*ssa.Call)
+				if !ok {
+					continue
+				}
+				c = p.CallOf(inner)
+			}
 			if c.Iface == nil || len(c.Args) == 0 {
 				continue
 			}
@@ -112,6 +122,17 @@ func c20Sample(p *Prog, l *Ledger) {
 		}
 		// nil-receiver early return
 		recvNil := pa.HoldsRel(-1, func(r Rel) bool { return r.Op == token.EQL && strip(r.X, false) == ssa.Value(sample.Params[0]) && isNilConst(r.Y) })
+		// a listener field the constructor fills with a listener proved non-nil is not nil here: the defensive branch for
+		// samplers built as struct literals is outside what the library constructs
+		if pa.HoldsRel(-1, func(r Rel) bool {
+			if r.Op != token.EQL || !isNilConst(r.Y) {
+				return false
+			}
+			fr, _, ok := loadedField(strip(r.X, false))
+			return ok && fr.Type != nil && types.Identical(fr.Type, cms) && neverNil[fr.Index]
+		}) {
+			return true
+		}
 		npaths++
 		cnt := map[string]int{}
 		pa.Each(func(step int, ins ssa.Instruction) bool {
@@ -1305,6 +1326,48 @@ func c20ChanBuffered(p *Prog, fr FieldRef) bool {
 				ok = false
 			}
 		}
+	}
+	return ok && n > 0
+}
+
+// c20NonNilPassThrough: g(x) returns x on the paths that established x != nil and a freshly made value otherwise.
+func c20NonNilPassThrough(p *Prog, g *ssa.Function) bool {
+	if g == nil || g.Blocks == nil || !p.InModule(g) || len(g.Params) != 1 || g.Signature.Results().Len() != 1 {
+		return false
+	}
+	ok, n, npass := true, 0, 0
+	prm := ssa.Value(g.Params[0])
+	EnumPaths(g, 1000, func(pa *Path) bool {
+		if !pa.IsReturn() {
+			return true
+		}
+		last := pa.Blocks[len(pa.Blocks)-1]
+		ret, isR := last.Instrs[len(last.Instrs)-1].(*ssa.Return)
+		if !isR || len(ret.Results) != 1 {
+			return true
+		}
+		n++
+		isNil := pa.HoldsRel(-1, func(rel Rel) bool { return rel.Op == token.EQL && strip(rel.X, false) == prm && isNilConst(rel.Y) })
+		nonNil := pa.HoldsRel(-1, func(rel Rel) bool { return rel.Op == token.NEQ && strip(rel.X, false) == prm && isNilConst(rel.Y) })
+		r := strip(pa.Resolve(ret.Results[0], len(pa.Blocks)-1), false)
+		switch x := r.(type) {
+		case *ssa.Alloc:
+			// a value made here, only in place of a nil argument
+			if !isNil {
+				ok = false
+			}
+		case *ssa.Parameter:
+			if ssa.Value(x) != prm || !nonNil {
+				ok = false
+			}
+			npass++
+		default:
+			ok = false
+		}
+		return ok
+	})
+	if npass == 0 {
+		return false
 	}
 	return ok && n > 0
 }
